@@ -211,6 +211,37 @@ def initializer_kinds():
     return guarded("initializer/kinds", run)
 
 
+def temporaries_are_generated_names():
+    """the value of a hoisted call travels in an identifier the tool generates: no user variable - the assignment target least of all -
+    stands in for a temporary.  Only the outermost call of `target = F(..)` delivers into the target, and it is the last call of the line"""
+    def run():
+        from coco.b09.compiler import convert
+        res = []
+        for src in ("A=INT(INT(B)+A)", 'A$=STRING$(3,STR$(B)+A$)', "A=INT(VAL(C$))+INT(A)", "A(1)=INT(INT(B)+A(1))", "A=INSTR(INT(A),B$,HEX$(A))", "IF INT(A)=1 THEN A=INT(INT(A)+1)", "A=INT(INT(INT(A)))",
+                    "A$=HEX$(VAL(A$)+LEN(STR$(A)))", "PRINT INT(A);STR$(A)", "FOR A=INT(A) TO INT(INT(A)+1):NEXT", "A=BUTTON(JOYSTK(A))", "B$=INKEY$+B$:A$=STR$(INSTR(1,A$,INKEY$))"):
+            text = convert("10 %s\n" % src, add_standard_prefix=False)
+            bad = []
+            for line in text.split("\n"):
+                parts = [p.strip() for p in re.sub(r'"[^"]*"', '""', line).split(" \\ ")]
+                calls = [(k, p) for k, p in enumerate(parts) if re.match(r"(?i)^(\d+ )?(IF .* THEN )?run \w+\(", p) or re.match(r"(?i)^(\d+ )?run \w+\(", p)]
+                for k, p in calls:
+                    inner = p[p.index("(") + 1:p.rindex(")")] if "(" in p and ")" in p else ""
+                    depth, cut = 0, 0
+                    for pos, ch in enumerate(inner):
+                        depth += ch == "("
+                        depth -= ch == ")"
+                        if ch == "," and depth == 0:
+                            cut = pos + 1
+                    dest = inner[cut:].strip()
+                    is_tmp = re.fullmatch(r"tmp_\d+\$?", dest) is not None
+                    is_last = k == len(parts) - 1
+                    if not is_tmp and not is_last and re.match(r"(?i).*run ecb_(int|val|str|hex|button|joystk|point|instr|string)\(", p) or (not is_tmp and not is_last and re.search(r"(?i)run inkey\(", p)):
+                        bad.append("%s delivers into the user variable %s in the middle of the line" % (p, dest))
+            res.append(ob("temporaries/%s" % src, not bad, "every hoisted call but the last of its line delivers into a generated tmp_N", bad[:2] or "ok", text))
+        return res
+    return guarded("temporaries", run)
+
+
 def initializer_positions():
     """with initialize_vars every user scalar that the program can read gets its Color BASIC start value (0 / "") in the prologue, in
     whatever position it occurs - a FOR control variable too: a jump can reach a use before the FOR ran - and nothing else does:
@@ -228,7 +259,7 @@ def initializer_positions():
         for name, (src, want) in P.items():
             for prefix in (True, False):
                 text = convert(src + "\n", add_standard_prefix=prefix, initialize_vars=True)
-                got = sorted(set(re.findall(r'(?m)^\s*([A-Za-z_0-9$]+) := (?:0\.0|"")$', text)))
+                got = sorted(set(re.findall(r'(?m)^\s*([A-Za-z_0-9$]+) := (?:0(?:\.0*)?|"")\s*$', text)))
                 res.append(ob("initializer/positions/%s,prefix=%d" % (name, prefix), got == sorted(want), sorted(want), got, src))
         return res
     return guarded("initializer/positions", run)
@@ -343,4 +374,4 @@ def config_names_c09():
 
 
 def obligations():
-    return truncation() + kinds_disjoint() + generated_identifiers() + variable_positions() + positions_through_rules() + reserved_values() + initializer_skips_generated() + initializer_kinds() + initializer_positions() + config_names_c09() + kinds_in_declarations() + next_names()
+    return truncation() + kinds_disjoint() + generated_identifiers() + variable_positions() + positions_through_rules() + reserved_values() + initializer_skips_generated() + initializer_kinds() + initializer_positions() + temporaries_are_generated_names() + config_names_c09() + kinds_in_declarations() + next_names()
